@@ -27,7 +27,7 @@ SOFT_LIMIT = {"quick": 240, "thorough": 1500}
 REQUIRED_FUNCS = ["sempler/noise.py:normal", "sempler/noise.py:uniform", "sempler/noise.py:laplace", "sempler/noise.py:zero",
                   "sempler/functions.py:null"]
 REQUIRED_COUNTERS = {t: {"dkw:normal": 30, "dkw:uniform": 10, "dkw:laplace": 20, "zero:checked": 2, "null:checked": 2, "repro:seeded-equal": 50,
-                         "repro:unseeded-differ": 50} for t in ("quick", "thorough")}
+                         "repro:unseeded-differ": 50, "same-parameters:uniform": 5, "anm-history:samples": 10} for t in ("quick", "thorough")}
 NBIG = {"quick": 100000, "thorough": 1000000}
 SEEDS = {"quick": (0, 1, 12345), "thorough": (0, 1, 2, 3, 5, 7, 42, 99, 12345, 65537, 2**31, 2**32 - 1)}
 
@@ -52,6 +52,14 @@ GRID.append(("null", ()))
 
 
 def gen(tier, seed, shard, nshards):
+    # the factories called one after the other with EQUAL parameters in one process, and the factories used inside an ANM
+    if shard == 0:
+        for params in ((1.0, 4.0), (), (0.0, 2.0), (-1.0, 0.5)):
+            for order in (("normal", "uniform", "laplace"), ("laplace", "uniform", "normal"), ("uniform", "laplace", "normal")):
+                yield "same-parameters", {"params": list(params), "order": list(order), "np_seed": int(seed) % 1000 + 11}
+    if shard == 1 % nshards:
+        for s in range(6):
+            yield "anm-history", {"np_seed": s + int(seed) % 1000}
     k = 0
     for (kind, params) in GRID:
         for s in SEEDS[tier]:
@@ -75,6 +83,47 @@ def _law(kind, params):
 def judge(family, case, rec):
     import sempler.noise as noise
     import sempler.functions as functions
+    if family == "same-parameters":
+        params = tuple(case["params"])
+        rec.case(family, case, True)
+        nsmall = 50000
+        for kind in case["order"]:
+            f = getattr(noise, kind)(*params)
+            np.random.seed(case["np_seed"])
+            x = f(nsmall)
+            pp = params
+            if kind == "uniform" and params and params[0] >= params[1]:
+                continue
+            cdf, mu, var, kurt, (lo, hi) = _law(kind, pp)
+            ks, eps = S.ks_distance(x, cdf), S.dkw_eps(nsmall)
+            rec.count("same-parameters:" + kind)
+            if ks > eps:
+                rec.violation("C20:%s-law-after-other-factory-with-equal-parameters" % kind, family, case,
+                              "noise.%s%r called after %s with the same parameters: empirical CDF deviates by %.3f (band %.3f), mean %.3f var %.3f"
+                              % (kind, params, [k_ for k_ in case["order"] if k_ != kind], ks, eps, float(x.mean()), float(x.var())))
+        return
+    if family == "anm-history":
+        import sempler
+        rec.case(family, case, True)
+        A = np.array([[0, 2.0, 0], [0, 0, 1.0], [0, 0, 0]])
+        z = noise.zero()
+        anm = sempler.ANM(A, [None, lambda x: 2 * x[:, 0], lambda x: x[:, 0] - 1.0], [noise.normal(1, 4), z, noise.zero()])
+        rs = case["np_seed"]
+        for kw in ({}, {"shift_interventions": {1: noise.uniform(2, 3)}}, {"noise_interventions": {2: noise.laplace(0, 1)}},
+                   {"do_interventions": {0: noise.uniform(0, 1)}, "shift_interventions": {2: noise.normal(5, 1)}}, {}):
+            Xs = anm.sample(200, random_state=rs, **kw)
+            rec.count("anm-history:samples")
+            for fz in (z, noise.zero()):
+                y = fz(64)
+                if y.shape != (64,) or not (y == 0).all():
+                    rec.violation("C20:zero-not-zero-after-anm-history", family, case,
+                                  "noise.zero()(n) returns non-zero values after ANM sampling with %s" % sorted(kw))
+                    return
+            if not kw and not np.allclose(Xs[:, 1], 2 * Xs[:, 0], rtol=1e-12, atol=1e-12):
+                rec.violation("C20:noiseless-variable-not-noiseless", family, case,
+                              "a variable whose noise is noise.zero() is no longer an exact function of its parent in an observational sample")
+                return
+        return
     kind, params, s = case["kind"], tuple(case["params"]), case["np_seed"]
     N = NBIG[rec.tier]
     if kind == "null":
